@@ -396,6 +396,28 @@ func getOp(keyPath []string, isSearchStage bool) (interface{}, bool) {
 	return nil, false
 }
 
+// extendedJSONMember reports whether key is one of the fixed member names of the extended-JSON
+// wrapper named by parent: {$binary:{base64, subType}}, {$regularExpression:{pattern, options}},
+// {$timestamp:{t, i}}. Those names are syntax, not field names, and are never pseudonymised.
+func extendedJSONMember(parent string, key string) bool {
+	switch parent {
+	case "$binary":
+		return key == "base64" || key == "subType"
+	case "$regularExpression":
+		return key == "pattern" || key == "options"
+	case "$timestamp":
+		return key == "t" || key == "i"
+	}
+	return false
+}
+
+func parentKeyOf(keyPath []string) string {
+	if len(keyPath) == 0 {
+		return ""
+	}
+	return keyPath[len(keyPath)-1]
+}
+
 func redactPipelineStage(stage interface{}, redactFieldNames bool, keyPath []string, inSearchStage bool) interface{} {
 	switch s := stage.(type) {
 	case *orderedmap.OrderedMap[string, any]:
@@ -406,7 +428,7 @@ func redactPipelineStage(stage interface{}, redactFieldNames bool, keyPath []str
 			redactedKey := k
 			newKeyPath := append(keyPath, k)
 			opMeta, isOp := getOp(newKeyPath, inSearchStage)
-			if redactFieldNames && !strings.HasPrefix(k, "$") && (!isOp || (isOp && opMeta == nil)) {
+			if redactFieldNames && !strings.HasPrefix(k, "$") && (!isOp || (isOp && opMeta == nil)) && !extendedJSONMember(parentKeyOf(keyPath), k) {
 				redactedKey = HashName(k)
 			}
 			if isOp && inSearchStage && opMeta != nil {
@@ -624,7 +646,7 @@ func redactPipelineStage(stage interface{}, redactFieldNames bool, keyPath []str
 						}
 						redactedSubK := subK
 						metaVal, metaOk := meta.Get(subK)
-						if redactFieldNames && !strings.HasPrefix(subK, "$") && (!subFound || (subFound && metaVal == nil && metaOk)) {
+						if redactFieldNames && !strings.HasPrefix(subK, "$") && (!subFound || (subFound && metaVal == nil && metaOk)) && !extendedJSONMember(k, subK) {
 							redactedSubK = HashName(subK)
 						}
 						if subStr, ok := subV.(string); ok && len(subStr) > 0 && subStr[0] == '$' && redactFieldNames {
@@ -714,7 +736,7 @@ func redactQueryValues(obj *orderedmap.OrderedMap[string, any], redactFieldNames
 			coreOp, isOp = CoreOperators.Get(k)
 		}
 		if redactFieldNames {
-			if !isOp && !strings.HasPrefix(k, "$") {
+			if !isOp && !strings.HasPrefix(k, "$") && !extendedJSONMember(parentKeyOf(keyPath), k) {
 				redactedKey = HashName(k)
 			}
 		}
